@@ -8,10 +8,13 @@ import (
 	"os"
 	"runtime/debug"
 	"runtime/pprof"
+	"strings"
 	"syscall"
 
 	"verifharness/mon"
 	"verifharness/props"
+
+	"github.com/google/logger"
 )
 
 func main() {
@@ -24,6 +27,7 @@ func main() {
 	known := flag.String("known", "/verif/known_findings.jsonl", "known findings file")
 	replay := flag.String("replay", "", "replay one saved case")
 	cpuprof := flag.String("cpuprofile", "", "write a CPU profile")
+	loglevel := flag.Int("loglevel", -1, "verbosity of the library's logger (-1: $VERIF_LOGLEVEL, else 0)")
 	harness := flag.String("harness", "", "directory of the harness module (for the native fuzz targets)")
 	modfile := flag.String("modfile", "", "alternative go.mod for builds started by the worker")
 	firstUse := flag.Bool("firstuse", false, "C16 helper: the very first verifications of this process run concurrently, with the embedded root; print verdicts and exit")
@@ -56,6 +60,17 @@ func main() {
 	}
 	os.Stdout = os.NewFile(uintptr(saved), "stdout")
 
+	// Library log verbosity of the whole process (default 0; parts of the workloads raise it themselves, see mon.AtVerbosity).
+	lvl := *loglevel
+	if lvl < 0 {
+		lvl = 0
+		if v := os.Getenv("VERIF_LOGLEVEL"); v != "" {
+			fmt.Sscan(v, &lvl)
+		}
+	}
+	logger.SetLevel(logger.Level(lvl))
+	mon.LogLevel = lvl
+
 	if *replay != "" {
 		b, err := os.ReadFile(*replay)
 		if err != nil {
@@ -69,6 +84,9 @@ func main() {
 		if err := json.Unmarshal(b, &f); err != nil {
 			fmt.Println("cannot parse replay file:", err)
 			os.Exit(2)
+		}
+		if strings.HasPrefix(f.Class, "verbose/") {
+			logger.SetLevel(2) // the case was found while the library logged at verbosity 2
 		}
 		rp := props.Replayers[f.Kind]
 		if rp == nil {
